@@ -583,6 +583,38 @@ def run_runtime(cx: Ctx, spec, rng):
             check_default_m(cx, code, vendor, kind, v, bool(mand))
             check_value(cx, "registered", kind, code, vendor, v, rng.random() < 0.5, rng.random() < 0.5,
                         via_new=True)
+    # vendor spaces are separate: ONE code registered under every vendor id the dictionary knows (those without any
+    # stock definition included), with a different type from one vendor to the next; each pair resolves to its own
+    # definition, and the same code under a vendor where it was not registered stays unknown
+    from diameter.message.avp.dictionary import AVP_VENDOR_DICTIONARY
+    vids = sorted(v for v in AVP_VENDOR_DICTIONARY if v)
+    empty = [v for v in vids if not AVP_VENDOR_DICTIONARY[v]]
+    chosen = (empty + [v for v in vids if v not in empty])[:14]
+    iso_code = 91009001
+    skipped = chosen[1::4]                     # every fourth vendor is left without the definition
+    reg_kind = {}
+    for j, v in enumerate(chosen):
+        if v in skipped:
+            continue
+        k = G.SCALAR_KINDS[j % len(G.SCALAR_KINDS)]
+        avp_mod.register(avp=iso_code, name=f"Verif-iso-{v}", type_cls=L.CLASS_OF_KIND[k], vendor=v, mandatory=False)
+        reg_kind[v] = k
+    for v in chosen:
+        ent = avp_mod.get_avp_dictionary_entry(iso_code, v) if hasattr(avp_mod, "get_avp_dictionary_entry") else \
+            L.dict_lookup(iso_code, v)
+        cx.matrix["vendor_spaces_checked"] = cx.matrix.get("vendor_spaces_checked", 0) + 1
+        if v in skipped:
+            if ent is not None:
+                cx.witness("register.leaks_into_another_vendor_space", {"code": iso_code, "vendor": v,
+                                                                        "sees": getattr(ent.get("type"), "__name__", None)})
+            continue
+        if ent is None or ent["type"] is not L.CLASS_OF_KIND[reg_kind[v]]:
+            cx.witness("register.vendor_space_overwritten_by_another", {
+                "code": iso_code, "vendor": v, "want": reg_kind[v],
+                "got": None if ent is None else getattr(ent["type"], "__name__", None)})
+            continue
+        for val in G.boundary_values(reg_kind[v])[:3]:
+            check_value(cx, "registered", reg_kind[v], iso_code, v, val, False, False, via_new=True)
     # a definition that has been used is registered again with another type: the new one counts from now on
     scalar = [r for r in regs if r[2] != "grouped"]
     for j, (code, vendor, kind, mand) in enumerate(scalar):
